@@ -75,6 +75,19 @@ def c05_cases(tier, rng):
                 markers(c)
                 for seg in ("one", "line", "byte", "rand"):
                     cases.append(c.case(seg=seg, rng=rng))
+    # the backend gives up early (takes k octets, returns an error): the rest of the announced chunk is still payload —
+    # it must be skipped, never executed — however the chunk is cut into segments
+    for p in [b"MAIL FROM:<bait@x>\r\nRCPT TO:<bait@x>\r\n", b"xx\r\nRSET\r\nEHLO bait.example\r\nMAIL FROM:<bait@x>\r\n", b"z" * 40 + b"\r\nMAIL FROM:<bait@x>\r\n"]:
+        for want in (0, 1, 5):
+            for last in (b"", b" LAST"):
+                for cfg in (dict(), dict(lmtp=1), dict(lmtp=1, lmtpsess=1)):
+                    c = g.Conv(cfg)
+                    envelope(c, bool(cfg.get("lmtp")))
+                    c.add(b"BDAT %d" % len(p) + last + CRLF, DATA=g.ddec(want=want, ret=g.se(554, "5.6.0", b"content rejected")))
+                    c.add(p)
+                    markers(c)
+                    for seg in ("one", "line", "byte", "rand", "rand"):
+                        cases.append(c.case(seg=seg, rng=rng))
     # LF-free payload runs around the line limit, payload in its own segments (limiter must not see it)
     for lim in (40, 64):
         for run in (lim - 1, lim + 1, 3 * lim):
